@@ -573,6 +573,8 @@ def resolve_ampm_branches(fn, ev):
     for n in own_walk(fn):
         if isinstance(n, ast.If):
             chains.append(n)
+    type_locals = {k for k, vals in local_defs(fn).items()
+                   if len(vals) == 1 and isinstance(vals[0], ast.Subscript) and ev(vals[0].slice) == 'type'}
     best = []
     for n in chains:
         br = []
@@ -583,7 +585,8 @@ def resolve_ampm_branches(fn, ev):
             if isinstance(t, ast.Compare) and len(t.ops) == 1 and isinstance(t.ops[0], ast.Eq):
                 a, b = t.left, t.comparators[0]
                 for x, y in ((a, b), (b, a)):
-                    if isinstance(x, ast.Subscript) and ev(x.slice) == 'type' and isinstance(ev(y), str):
+                    if ((isinstance(x, ast.Subscript) and ev(x.slice) == 'type') or
+                            (isinstance(x, ast.Name) and x.id in type_locals)) and isinstance(ev(y), str):
                         tv = ev(y)
             if tv is None:
                 break
@@ -597,8 +600,22 @@ def resolve_ampm_branches(fn, ev):
     return best
 
 
-def branch_normal_form(body, ev):
-    """{key: sorted callees of DateTimeFormatUtil used on the right-hand side}"""
+def branch_normal_form(body, ev, resolve_helper=None):
+    """{key: sorted callees of DateTimeFormatUtil used on the right-hand side}; a module-level / same-class helper called on
+    the right-hand side contributes the formatter calls of its own body"""
+    def pm_callees(expr, depth=0):
+        out = set()
+        for c in ast.walk(expr):
+            if isinstance(c, ast.Call):
+                if isinstance(c.func, ast.Attribute) and c.func.attr in ('to_pm', 'all_str_to_pm'):
+                    out.add(c.func.attr)
+                elif resolve_helper is not None and depth < 2:
+                    h = resolve_helper(c)
+                    if h is not None:
+                        for st in h.body:
+                            out |= pm_callees(st, depth + 1)
+        return out
+
     nf = {}
     for s in body:
         for n in ast.walk(s):
@@ -606,8 +623,7 @@ def branch_normal_form(body, ev):
                 k = ev(n.targets[0].slice)
                 if not isinstance(k, str):
                     continue
-                callees = sorted({c.func.attr for c in ast.walk(n.value) if isinstance(c, ast.Call)
-                                  and isinstance(c.func, ast.Attribute) and c.func.attr in ('to_pm', 'all_str_to_pm')})
+                callees = sorted(pm_callees(n.value))
                 nf.setdefault(k, set()).update(callees or ['<none>'])
     return {k: sorted(v) for k, v in nf.items()}
 
@@ -724,7 +740,15 @@ def rule_ampm(chk, idx):
                 chk.observe('%s._resolve_ampm has branches for types no writer produces: %s' % (k.name, extra))
         if k not in seen:
             for tv, body, node in branches:
-                nf = branch_normal_form(body, ev)
+                def resolve_helper(call, _k=k):
+                    f_ = call.func
+                    if isinstance(f_, ast.Name):
+                        r_ = idx.resolve(_k.mod, f_.id)
+                        return r_[2] if r_ and r_[0] == 'func' else None
+                    if isinstance(f_, ast.Attribute) and isinstance(f_.value, ast.Name) and f_.value.id in ('self', 'cls'):
+                        return idx.find_method(_k, f_.attr)[1]
+                    return None
+                nf = branch_normal_form(body, ev, resolve_helper)
                 msgs = branch_verdict(tv, nf)
                 detail = 'type=%s ' % tv + ' '.join('%s<-%s' % (kk, '+'.join(v)) for kk, v in sorted(nf.items()))
                 chk.judge(not msgs, r_branch, k.mod.path, '%s._resolve_ampm[%s]' % (k.name, tv), detail,
